@@ -142,7 +142,7 @@ def check_statement(ctx, conn, sa, raw, data, datakey):
     except dsleval.Unsupported:
         ctx.count('skipped_unsupported')
         return
-    if dslgen.violations(ast) or dslgen.unspecified(ast) is not None or dsleval.inner_rows(ast):
+    if dslgen.violations(ast) or dslgen.unspecified(ast) is not None or dsleval.inner_rows(ast):  # nested limits: C06
         ctx.count('skipped_not_comparable')
         return
     from checks import c06
